@@ -17,12 +17,16 @@ const (
 	EndEOF EndMode = iota
 	// EndSilentVirtual: the client stays silent; Read reports the armed read
 	// deadline as exceeded at once (virtual time). Without a deadline it
-	// blocks until Close.
+	// returns ErrSilentForever.
 	EndSilentVirtual
 	// EndSilentReal: the client stays silent; Read blocks until the armed
 	// deadline really passes or the conn is closed.
 	EndSilentReal
 )
+
+// ErrSilentForever is returned in virtual time when a read without deadline
+// meets a client that will never send again.
+var ErrSilentForever = errors.New("verif: client stays silent forever (virtual time)")
 
 // ReadEvent is one Read call on the underlying scripted connection.
 type ReadEvent struct {
@@ -131,6 +135,8 @@ func (c *ScriptConn) Read(p []byte) (int, error) {
 			if !c.deadline.IsZero() {
 				return c.logRead(0, os.ErrDeadlineExceeded)
 			}
+			// no deadline armed and a client that stays silent forever: the reader would block for good
+			return c.logRead(0, ErrSilentForever)
 		case EndSilentReal:
 			if !c.deadline.IsZero() && !time.Now().Before(c.deadline) {
 				return c.logRead(0, os.ErrDeadlineExceeded)
